@@ -61,7 +61,7 @@ def prove(R, world, st, claim, key, native=None, small=None, timeout_ms=60000):
         if sl.check() == z3.sat: m = sl.model()
         sl.pop()
     mod = model_of(m, world)
-    v = dict(key=key, kind='obligation', detail='negated claim satisfiable', model={k: str(x) for k, x in mod.items()}, engine='B', trail='')
+    v = dict(key=key, kind='spec', detail='negated claim satisfiable', model={k: str(x) for k, x in mod.items()}, engine='B', trail='')
     if native is not None:
         try:
             ok, msg = native(mod)
